@@ -32,8 +32,11 @@ namespace Ipv8.C13
       KNOWS NOBODY BUT THE INTRODUCER (plus the other parties of the named history); what varies is how the introducer
       learned P (five histories), the number of live candidates (1, 3, 5), a second overlay in which the same three nodes
       connected first, a blacklisted bootstrap introducer, an introducer behind a box with P on its own machine.
-  Both restrictions are load-bearing: `lan_collision_blocks_same_nat` and `foreign_entry_blocks_overlay` are requester
-  states outside the tables in which the unchanged code does not connect the pair (known findings).
+  The restrictions are load-bearing.  Four reachable states outside the tables in which the unchanged code does NOT connect
+  the pair are proved below (known findings; the list is what has been found, not a characterisation):
+  `lan_collision_blocks_same_nat`, `foreign_entry_blocks_overlay` (requester's address table),
+  `stale_wan_estimate_blocks_puncture` (introduced peer's per-overlay WAN estimate), `stale_lan_estimate_blocks_same_nat`
+  (cached `my_estimated_lan` after a LAN change).
 -/
 
 
@@ -138,27 +141,32 @@ theorem intro_reaches_own_machine_partial (c : Cfg) (h : c.pl = .pub ∨ c.pl = 
     simp only [ownCfgs, List.mem_filter, mem_allCfgs, true_and, Bool.or_eq_true, beq_iff_eq]; exact h
   exact List.all_eq_true.mp tableI2 c hm
 
-/-- address changes: (1) the introduced peer's NAT mapping is renewed after the introducer learned it and it contacts
-    the introducer again from the new mapping — the introducer hands out, and sends the puncture request to, the NEW
-    address; (2) the requester's mapping is renewed while it is a known peer of the introducer — the response reaches,
-    and the puncture aims at, the new mapping; (3) the requester roams to another public ip (leaving, for placement
-    `same`, the box it shared with the introduced peer) — it adopts the new WAN estimate before classifying the
-    introduction.  In each case both end up in each other's get_peers() under the addresses that are valid NOW. -/
+/-- address changes, rows in which the host concerned is behind a box (for a public host there is no mapping to renew):
+    (1) the introduced peer's mapping is renewed after the introducer learned it and it contacts the introducer again from
+    the new mapping; (2) the requester's mapping is renewed while it is a known peer of the introducer; (3) the requester
+    roams to another public ip (for placement `same`: away from the box it shared with the introduced peer).  In each case
+    (`allOkDyn`, addresses as they are NOW): the puncture request names the requester's current WAN address and reaches
+    the introduced peer, which punctures towards it; the response hands out the introduced peer's current WAN address;
+    a walk of the requester reaches the introduced peer and the answer returns; both are in each other's get_peers()
+    under the current addresses.  (No LAN-path clause here.) -/
 theorem intro_reaches_after_address_change_partial (c : Cfg) :
-    mutualDyn (scriptIntroducedRemapped c) = true ∧ mutualDyn (scriptRequesterRemapped c) = true ∧
-    mutualDyn (scriptRequesterRoams c) = true := by
-  have h := of_all tableK c
-  simp only [Bool.and_eq_true] at h
-  exact ⟨of_all tableJ c, h.1, h.2⟩
-example : ((scriptRequesterRoams ⟨.portRestricted, .portRestricted, .same, false⟩).hosts[1]?.map (·.wan)) =
-    some ⟨ipv4 8 8 8 8, 45001⟩ := by decide +kernel
+    (boxedP c = true → allOkDyn c (preIntroducedRemapped c) = true) ∧
+    (boxedR c = true → allOkDyn c (preRequesterRemapped c) = true ∧ allOkDyn c (preRequesterRoams c) = true) := by
+  refine ⟨fun hp => ?_, fun hr => ?_⟩
+  · exact List.all_eq_true.mp tableJ c (by simp [List.mem_filter, mem_allCfgs, hp])
+  · have h := List.all_eq_true.mp tableK c (by simp [List.mem_filter, mem_allCfgs, hr])
+    simpa [Bool.and_eq_true] using h
+example : boxedR ⟨.portRestricted, .portRestricted, .same, false⟩ = true ∧
+    ((preRequesterRoams ⟨.portRestricted, .portRestricted, .same, false⟩).hosts[1]?.map (·.wan)) = some ⟨ipv4 8 8 8 8, 45001⟩ := by
+  decide +kernel
 
-/-- churn at an introducer without peer limit (max_peers = -1): the introduced peer's mapping is renewed, the introducer
-    drops it (Network.remove_peer) and verifies it again from its next request; the introduction then hands out the new
-    address and both end up verified -/
-theorem intro_reaches_after_churn_partial (c : Cfg) : mutualDyn (scriptChurn c) = true := of_all tableL c
+/-- churn at an introducer without peer limit (max_peers = -1), rows with a boxed introduced peer: its mapping is renewed,
+    the introducer drops it (Network.remove_peer) and verifies it again from its next request; same conclusion
+    (`allOkDyn`) as above -/
+theorem intro_reaches_after_churn_partial (c : Cfg) (hp : boxedP c = true) : allOkDyn c (preChurn c) = true :=
+  List.all_eq_true.mp tableL c (by simp [List.mem_filter, mem_allCfgs, hp])
 
-/-! ## requester states outside the tables in which the unchanged code FAILS (known findings, witnesses) -/
+/-! ## reachable states outside the tables in which the unchanged code FAILS (known findings, witnesses) — not exhaustive -/
 
 /-- KNOWN FINDING (a), negation of the full statement: R and P behind one box (both port-restricted, old style, the
     table's addresses); R already holds a verified peer Q on another LAN whose recorded LAN address is P's LAN address
@@ -176,6 +184,26 @@ theorem lan_collision_blocks_same_nat :
 theorem foreign_entry_blocks_overlay :
     (foreignEntryWorld.nodes[1]?.map (·.walkable 0)) = some [] ∧ mutualOk cfgDiffPR foreignEntryWorld = false ∧
     (foreignEntryWorld.verifiedAt 1 3 1).isSome = true ∧ (foreignEntryWorld.verifiedAt 1 3 0) = none := by
+  decide +kernel
+
+/-- KNOWN FINDING (c), on the INTRODUCED peer's side: `my_estimated_wan` is kept per overlay, the peer record at the
+    introducer per Network.  P (same box as R, both port-restricted) is a peer of I in overlays 0 and 1, roams to another
+    public ip and is refreshed at I through overlay 1 only.  Introduced in overlay 0, P's `on_puncture_request` still
+    believes it shares R's public ip, takes the same-NAT branch and punctures to the LAN walker field — the introducer's
+    own address; R's request is filtered; nobody is verified. -/
+theorem stale_wan_estimate_blocks_puncture :
+    staleEstimateWorld.trace.any (fun e => e.src == 2 && e.isPuncture && e.dst == addrI) = true ∧
+    staleEstimateWorld.trace.any (fun e => e.src == 1 && e.isReq && e.out == .drop .filtered) = true ∧
+    mutualDyn staleEstimateWorld = false := by
+  decide +kernel
+
+/-- KNOWN FINDING (d): `my_estimated_lan` is computed once and cached.  P moves into R's box and gets another LAN address
+    there, refreshes at I still advertising the old one; I hands out that stale LAN address, the same-NAT requester walks
+    only to it (no host there) and the pair never connects. -/
+theorem stale_lan_estimate_blocks_same_nat :
+    (staleLanWorld.hosts[2]?.map (·.lan)) = some ⟨ipv4 192 168 1 77, 8090⟩ ∧
+    (staleLanWorld.nodes[2]?.map (·.myLan)) = some ⟨ipv4 192 168 1 3, 8090⟩ ∧
+    mutualDyn staleLanWorld = false := by
   decide +kernel
 
 /-! ## facts for all inputs -/
